@@ -139,7 +139,7 @@ def generate(rng, tier):
         "src": specs,
         "pre": pre,
         "dir": direction,
-        "depth": rng.choice([100, 100, 100, 1, 2, 3, 5, 0]),
+        "depth": rng.choice([100, 100, 1, 2, 3, 5, 0, 0]),
         "ops": ops,
         "no_extra": rng.random() < 0.5,  # server answers get_parent_map without prefetching further ancestry (more RPCs, richer recipes)
         "relock": rng.random() < 0.25,  # release and re-take the remote lock between operations (drops the cache)
